@@ -4,11 +4,12 @@
 //!   F <name> <off:val,...|->      /repo/testdata/<name> with u32 (LE) values patched in
 //!   SIZES                         in-memory element sizes of every with_capacity site (tie to Model.v)
 //! `c01 --gen` prints valid base dumps built with minidump-synth (name + hex), used by the generator.
-//! Answer: `R=..;SI=..;TL=..;...;pk=<peak single allocation>;live=<peak live bytes>;ms=<wall>`.
+//! Answer: `R=..;SI=..;TL=..;...;pk=<peak single allocation>;live=<peak live bytes>;ms=<CPU time of the process>`.
 //! Every step runs under its own catch_unwind (`!P(<msg>)` marks a panic); a counting global
 //! allocator records the largest single request and the peak of live bytes per case; a watchdog
-//! thread kills the process when one case exceeds CASE_LIMIT_MS (the runner then names the first
-//! unanswered case as the culprit).
+//! thread kills the process when one case burns more than CASE_LIMIT_MS of CPU time (the runner then names
+//! the first unanswered case as the culprit). All times are CPU times of this process (CLOCK_PROCESS_CPUTIME_ID):
+//! a reader that hangs spins, it never sleeps, and a wall clock turns a loaded machine into false alarms.
 use minidump::format as md;
 use minidump::system_info::{Cpu, Os};
 use minidump::*;
@@ -55,8 +56,10 @@ static A: Counting = Counting;
 // ------------------------------------------------------------------ watchdog
 const CASE_LIMIT_MS: u64 = 20_000;
 static CASE_START_MS: AtomicU64 = AtomicU64::new(0); // 0 = idle
-fn now_ms(t0: std::time::Instant) -> u64 {
-    t0.elapsed().as_millis() as u64 + 1
+fn now_ms(_t0: std::time::Instant) -> u64 {
+    let mut ts = libc::timespec { tv_sec: 0, tv_nsec: 0 };
+    unsafe { libc::clock_gettime(libc::CLOCK_PROCESS_CPUTIME_ID, &mut ts) };
+    ts.tv_sec as u64 * 1000 + ts.tv_nsec as u64 / 1_000_000 + 1
 }
 
 // ------------------------------------------------------------------ helpers
@@ -64,6 +67,57 @@ struct Sink(u64);
 impl Write for Sink {
     fn write(&mut self, b: &[u8]) -> std::io::Result<usize> {
         self.0 += b.len() as u64;
+        Ok(b.len())
+    }
+    fn flush(&mut self) -> std::io::Result<()> {
+        Ok(())
+    }
+}
+
+/// Reads what MinidumpThread::print writes, line by line, without keeping it: after the line `Stack` every line
+/// `    0x<offset>: 0x<value>` is one stack word (its width = the hex digits of the value / 2); `No stack` otherwise.
+#[derive(Default)]
+struct WordSink {
+    line: Vec<u8>,
+    in_stack: bool,
+    no_stack: bool,
+    words: u64,
+    width: u64,
+}
+impl WordSink {
+    fn end_line(&mut self) {
+        let l = std::mem::take(&mut self.line);
+        if l == b"Stack" {
+            self.in_stack = true;
+        } else if l == b"No stack" {
+            self.no_stack = true;
+        } else if self.in_stack && l.starts_with(b"    0x") {
+            if let Some(p) = l.windows(4).position(|w| w == b": 0x") {
+                self.words += 1;
+                self.width = ((l.len() - p - 4) / 2) as u64;
+            }
+        }
+        self.line = l;
+        self.line.clear();
+    }
+    fn answer(&self) -> String {
+        if self.no_stack || !self.in_stack {
+            "-1".to_string()
+        } else {
+            // a stack shorter than one word prints no line: the width is then the model's to say; 0 marks "no word seen"
+            (16 * self.words + self.width).to_string()
+        }
+    }
+}
+impl Write for WordSink {
+    fn write(&mut self, b: &[u8]) -> std::io::Result<usize> {
+        for &c in b {
+            if c == b'\n' {
+                self.end_line();
+            } else if self.line.len() < 96 {
+                self.line.push(c);
+            }
+        }
         Ok(b.len())
     }
     fn flush(&mut self) -> std::io::Result<()> {
@@ -638,6 +692,20 @@ fn walk(bytes: &[u8]) -> String {
         let v: Vec<String> = all.iter().take(8).map(|t| pos(&all, l.get_thread_info(t.raw.thread_id))).collect();
         if v.is_empty() { "ok".to_string() } else { format!("ok:{}", v.join(":")) }
     });
+    // ---- round 5, second pass: the stack words MinidumpThread::print writes (non-brief, with the memory get_memory offers and the dump's system
+    // info), tied to C01/PModel.v: per thread (first eight) -1 = "No stack", else 16 * words + bytes per word
+    f.push(format!("TSW={}", guard(|| match dump.get_stream::<MinidumpThreadList>() {
+        Ok(tl) => {
+            let mut v: Vec<String> = vec![];
+            for t in tl.threads.iter().take(8) {
+                let mut w = WordSink::default();
+                t.print(&mut w, Some(memref), sys.as_ref(), misc.as_ref(), false).unwrap();
+                v.push(w.answer());
+            }
+            if v.is_empty() { "ok".to_string() } else { format!("ok:{}", v.join(":")) }
+        }
+        Err(e) => err_name(&e),
+    })));
     f.join(";")
 }
 
@@ -806,7 +874,7 @@ fn main() {
         std::thread::sleep(std::time::Duration::from_millis(250));
         let s = CASE_START_MS.load(Relaxed);
         if s != 0 && now_ms(t0) > s + CASE_LIMIT_MS {
-            eprintln!("c01: case exceeded {} ms (hang)", CASE_LIMIT_MS);
+            eprintln!("c01: case exceeded {} ms of CPU time (hang)", CASE_LIMIT_MS);
             unsafe { libc::_exit(3) };
         }
     });
